@@ -225,7 +225,9 @@ func cleanPath(p, proto string) string {
 }
 
 func (m *urlModule) fixURL(u *url.URL) {
-	u.Path = cleanPath(u.Path, u.Scheme)
+	if u.Scheme != "" || u.Host != "" || strings.HasPrefix(u.Path, "/") {
+		u.Path = cleanPath(u.Path, u.Scheme)
+	} // else: the path of a relative reference is merged with the base path first
 	if isSpecialNetProtocol(u.Scheme) {
 		hostname := hostWithoutPort(u)
 		lh := strings.ToLower(hostname)
@@ -418,6 +420,10 @@ func (m *urlModule) createURLConstructor() goja.Value {
 			base := m.parseURL(baseArg.String(), true)
 			ref := m.parseURL(call.Argument(0).String(), false)
 			u = base.ResolveReference(ref)
+			if ref.Fragment == "" {
+				u.Fragment, u.RawFragment = "", "" // RFC 3986 5.2.2: the fragment is always the reference's
+			}
+			m.fixURL(u)
 		} else {
 			u = m.parseURL(call.Argument(0).String(), true)
 		}
